@@ -657,6 +657,19 @@ func c19Tag(ctx context.Context, t int64) context.Context {
 	return context.WithValue(ctx, c19TagKey{}, append(append([]int64(nil), old...), t))
 }
 
+// c19TagDone: on the server side some substituted contexts are ALREADY DONE (cancelled) when they
+// are passed on (tags ending in 4: the "substitute" letter and random stages): the remainder of the
+// chain must run all the same - whether a stage acts on a done context is that stage's business.
+func c19TagDone(ctx context.Context, t int64) context.Context {
+	c := c19Tag(ctx, t)
+	if t%10 == 4 {
+		c2, cancel := context.WithCancel(c)
+		cancel()
+		return c2
+	}
+	return c
+}
+
 func c19BE(id int64) []byte { return binary.BigEndian.AppendUint64(nil, uint64(id)) }
 func c19UnBE(b []byte) int64 {
 	if len(b) != 8 {
@@ -765,7 +778,12 @@ func c19MsgWorld(kind string) *c19World[context.Context, *kmip.RequestMessage, c
 		obsRes: func(z c19MsgZ, m *kmip.RequestMessage) c19Res {
 			return c19Res{Resp: c19RespObs(z.p, c19Lookup(c19MsgID(m)).base), Err: c19ErrObs(z.e)}
 		},
-		tag:   c19Tag,
+		tag: func(ctx context.Context, t int64) context.Context {
+			if kind == "client" {
+				return c19Tag(ctx, t) // the client's innermost stage is real I/O under that context
+			}
+			return c19TagDone(ctx, t)
+		},
 		fresh: func() context.Context { return context.Background() },
 		setMsg: func(m *kmip.RequestMessage, id int64) *kmip.RequestMessage {
 			return c19MkMsg(kind, c19Lookup(c19MsgID(m)).base+id)
@@ -804,7 +822,7 @@ func c19ItemWorld() *c19World[context.Context, *kmip.RequestBatchItem, c19ItemZ]
 			}
 			return r
 		},
-		tag:   c19Tag,
+		tag:   c19TagDone,
 		fresh: func() context.Context { return context.Background() },
 		setMsg: func(m *kmip.RequestBatchItem, nid int64) *kmip.RequestBatchItem {
 			it := c19MkItem(c19Lookup(id(m)).base + nid)
@@ -941,15 +959,40 @@ func c19NewSut(cs *c19Case) (*c19Sut, error) {
 			go c19Serve(b)
 			return a, nil
 		}
+		// registered through two options from one slice with spare capacity; afterwards the caller
+		// overwrites its slice: the client's chain is the client's own (registration order kept)
+		mws := c19ClientMws(cs.Chain)
+		base := make([]kmipclient.Middleware, len(mws), len(mws)+4)
+		copy(base, mws)
+		k := len(base) / 2
 		c, err := kmipclient.DialContext(context.Background(), "mem", kmipclient.WithDialerUnsafe(dial),
-			kmipclient.EnforceVersion(kmip.V1_4), kmipclient.WithMiddlewares(c19ClientMws(cs.Chain)...))
+			kmipclient.EnforceVersion(kmip.V1_4), kmipclient.WithMiddlewares(base[:k]...), kmipclient.WithMiddlewares(base[k:]...))
 		if err != nil {
 			return nil, err
+		}
+		full := base[:cap(base)]
+		for i := range full {
+			full[i] = func(next kmipclient.Next, ctx context.Context, msg *kmip.RequestMessage) (*kmip.ResponseMessage, error) {
+				panic("C19: a middleware slot of the CALLER's slice was reached through the client's chain")
+			}
 		}
 		s.client = c
 	case "server":
 		s.exec = kmipserver.NewBatchExecutor()
-		s.exec.Use(c19ServerMws(cs.Chain)...)
+		{
+			mws := c19ServerMws(cs.Chain)
+			base := make([]kmipserver.Middleware, len(mws), len(mws)+4)
+			copy(base, mws)
+			k := len(base) / 2
+			s.exec.Use(base[:k]...)
+			s.exec.Use(base[k:]...)
+			full := base[:cap(base)]
+			for i := range full {
+				full[i] = func(next kmipserver.Next, ctx context.Context, msg *kmip.RequestMessage) (*kmip.ResponseMessage, error) {
+					panic("C19: a middleware slot of the CALLER's slice was reached through the server's chain")
+				}
+			}
+		}
 		s.exec.Route(kmip.OperationActivate, c19Handler("server"))
 	case "item":
 		s.exec = kmipserver.NewBatchExecutor()
